@@ -189,6 +189,12 @@ class Facts:
                 self.canon_log.append("merged duplicate: %s no longer exists, its callers use %s, which is analysed in its place" % (gone, kept))
             # P2: functions the reference tree does not have are spliced into their callers
             self.canon_log += canon.inline_new_functions(self, self.crate)
+            # P2b: a local `From` impl used where the reference copies field by field is read in place, and a whole-value
+            # store of a struct literal as the stores of its fields
+            self.canon_log += canon.inline_conversions(self, self.crate)
+            self.canon_log += canon.scalarise_whole_stores(self)
+            # P2c: matches!(x, V(..)) is the comparison discriminant(x) == V
+            self.canon_log += canon.recognise_matches(self)
             # P5: hand-written `if a > b { b } else { a }` is read as min(a, b)
             self.canon_log += canon.recognise_minmax(self)
             # P4: tuples built only to be matched on are replaced by their components
